@@ -6,6 +6,7 @@ import SV.GenProofs.LRU
 import SV.LRU.RefSpec
 import SV.LRU.SimpleLruLib
 import SV.LRU.CapacityLib
+import SV.FactsProofs.Conc
 namespace SV.Props.C15
 open SV SV.LRU
 
@@ -150,5 +151,13 @@ theorem two_structure_sized_lru_bytes_bound (size maxBytes : Nat) (ops : List Ca
     (c.cur ≤ (maxBytes : Int) ∨ c.len = 1) ∧ (c.sizeInBytesContained ≤ maxBytes ∨ c.len = 1) ∧
     (c.sizeInBytesContained : Int) = (c.evictList.map (·.sz)).sum :=
   CapLib.lib_bytes_le_max_unless_single size maxBytes ops
+
+/-- (regenerated fact) the operations of the size-bounded LRU are single critical sections of its mutex in the CURRENT source —
+    `Keys` included: the slice it fills is sized and filled under one lock, so the listing is a snapshot of one state -/
+theorem sized_lru_operations_are_single_critical_sections :
+    ∀ n ∈ ["lrucache/capacity:capacityLRU.AddSized", "lrucache/capacity:capacityLRU.AddSizedIfMissing",
+           "lrucache/capacity:capacityLRU.AddSizedAndReturnEvicted", "lrucache/capacity:capacityLRU.Get",
+           "lrucache/capacity:capacityLRU.Remove", "lrucache/capacity:capacityLRU.Keys"],
+      (n, true) ∈ Facts.singleCriticalSection := Facts.sized_lru_sections
 
 end SV.Props.C15
